@@ -17,10 +17,6 @@ import (
 // This function only operates on array major types and not text strings or
 // byte strings.
 func ArrayShift(data []byte) (first, remaining []byte) {
-	if len(data) == 0 {
-		panic("data cannot be empty")
-	}
-
 	b := bytes.NewBuffer(data)
 	dec := NewDecoder(b)
 	length, err := dec.UnwrapArray()
